@@ -37,6 +37,7 @@ type xferOpts struct {
 	srvPaneCols   int   // width of the server's tmux pane (0: 77)
 	relayPaneCols []int // widths of the relays' tmux panes, nearest to the client first (nil: 60, 67, ...; then they do not count for the progress oracle)
 	othersNames map[string]bool // top-level names another transfer into the same destination reported (not this one's extras)
+	trigSplitLF bool // the last byte of the trigger line (its line feed) arrives in a read of its own
 	srvCCFrame bool                     // the server's pane belongs to a tmux in control mode: its output reaches the next hop as %output lines, and what is typed towards it lands in tmux's command channel (recorded in ccTyped), not in its stdin
 	cols       int32
 	uploadVia  int // 0 OneTimeUpload, 1 UploadFiles (drag queue + scripted shell), 2 typed paths
@@ -503,6 +504,24 @@ func (x *xferWorld) prepareServer() {
 		execs[sp] = x.tmuxExec(o.srvTmux, x.srvPane(), tty)
 		if o.srvTmux == "normal" {
 			w.Ttys[tty] = &verifsim.SimFile{W: x.downLast()}
+		}
+	}
+	if o.trigSplitLF {
+		// the transport delivers the trigger line's final line feed in a read of its own
+		split := false
+		l := x.downLast()
+		prevM := l.Mangle
+		l.Mangle = func(ll *verifsim.Link, data []byte) []byte {
+			if prevM != nil {
+				data = prevM(ll, data)
+			}
+			if split || !bytes.Contains(data, []byte("::TRZSZ:TRANSFER:")) || !bytes.HasSuffix(data, []byte("\r\n")) {
+				return data
+			}
+			split = true
+			x.rc.fault("trigger-line-feed-in-its-own-read")
+			x.w.Go("trigger.lf", nil, func() { ll.Write([]byte("\n")) })
+			return data[:len(data)-1]
 		}
 	}
 	if o.trigEdit != nil || o.srvWindows {
